@@ -46,6 +46,9 @@ def plan(tier, seed):
     n_gen = 80 if tier == 'quick' else 6000
     n_tri = 20 if tier == 'quick' else 2000
     cases = [{'kind': 'pair'} for _ in range(n_pairs)] + [{'kind': 'gen'} for _ in range(n_gen)] + [{'kind': 'triple'} for _ in range(n_tri)]
+    # short files made of statements taken from the golden programs: what the code generator remembers about the LAST statements of one
+    # file (previous instruction, pending prefix, delay slot ...) must not reach the FIRST statements of the next
+    cases += [{'kind': 'vocab'} for _ in range(150 if tier == 'quick' else 12000)]
     # guarantee that every program appears once as successor of a generated predecessor and once in a pair
     for i, n in enumerate(names):
         cases.append({'kind': 'gen', 'succ': n})
@@ -73,6 +76,41 @@ def gen_pred(rng, succ_text):
     if tail:
         L.append(tail)
     return '\n'.join(L) + '\n'
+
+
+_VOCAB = {}
+CPU_RE = re.compile(r'^\s+cpu\s+(\S+)', re.I)
+PLAIN_RE = re.compile(r'^\s+[A-Za-z][A-Za-z0-9_.]*(\s+[^;]*)?(;.*)?$')
+NOT_PLAIN = re.compile(r'^\s+(cpu|include|binclude|macro|endm|irp|irpc|irpn|rept|while|if\w*|else\w*|endif|switch|case|endcase|elsecase|section|endsection|struct|'
+                       r'endstruct|union|endunion|end|org|segment|phase|dephase|save|restore|page|listing|expect|endexpect|function|charset|read|message|warning|'
+                       r'error|fatal|shift|exitm|pushv|popv|forward|public|global|supmode|assume)\b', re.I)
+
+
+def vocabulary(prog):
+    """{cpu name: [plain statement lines that follow that CPU statement]} of a golden program"""
+    if prog.name not in _VOCAB:
+        voc = {}
+        cur = None
+        for l in prog.source().decode('latin-1').split('\n'):
+            m = CPU_RE.match(l)
+            if m:
+                cur = m.group(1)
+                voc.setdefault(cur, [])
+            elif cur and PLAIN_RE.match(l) and not NOT_PLAIN.match(l) and len(l) < 100:
+                voc[cur].append(l.split(';')[0].rstrip())
+        _VOCAB[prog.name] = {k: v for k, v in voc.items() if len(v) >= 3}
+    return _VOCAB[prog.name]
+
+
+def vocab_file(rng, prog):
+    voc = vocabulary(prog)
+    if not voc:
+        return None
+    cpu = rng.choice(sorted(voc))
+    lines = ['\tcpu\t%s' % cpu] + [rng.choice(voc[cpu]) for _ in range(rng.randrange(1, 7))]
+    if rng.random() < 0.4:
+        lines.append('\tend')
+    return '\n'.join(lines) + ('\n' if rng.random() < 0.8 else '')
 
 
 def stage(ctx, prog, sub):
@@ -138,6 +176,15 @@ def run_case(case, ctx):
         b = byname[case['succ']] if 'succ' in case else rng.choice(progs)
         seq = [('gen', None), ('prog', b)]
         flags = list(b.flags)
+    elif kind == 'vocab':
+        a = rng.choice(progs)
+        b = a if rng.random() < 0.6 else rng.choice(byflags[tuple(a.flags)])
+        ta, tb = vocab_file(rng, a), vocab_file(rng, b)
+        if ta is None or tb is None:
+            out.obs['vocab_cases_without_vocabulary'] += 1
+            return
+        seq = [('text', ta), ('text', tb)]
+        flags = list(a.flags)
     else:
         b = rng.choice(progs)
         group = byflags[tuple(b.flags)]
@@ -148,12 +195,19 @@ def run_case(case, ctx):
     subdirs = []
     descr = []
     last_prog_text = b.source().decode('latin-1')
+    if kind == 'vocab':
+        out.sets['vocab_programs'].add(a.name)
     for i, (k, p) in enumerate(seq):
         sub = 'd%d' % i
         if k == 'prog':
             srcs.append(stage(ctx, p, sub))
             subdirs.append(sub)
             descr.append(p.name)
+        elif k == 'text':
+            os.makedirs(ctx.path(sub), exist_ok=True)
+            ctx.write(os.path.join(sub, 'zzvoc.asm'), p)
+            srcs.append(os.path.join(sub, 'zzvoc.asm'))
+            descr.append('V:' + p.replace('\n', ' / ').replace('\t', ' ')[:200])
         else:
             os.makedirs(ctx.path(sub), exist_ok=True)
             text = gen_pred(rng, last_prog_text)
@@ -202,7 +256,7 @@ def run_case(case, ctx):
         role = 'first' if i == 0 else 'successor'
         if ps[s] != p0:
             what = 'missing' if ps[s] is None else ('unexpected' if p0 is None else 'different')
-            out.violate('code-file-%s-after-%s' % (what, 'generated' if seq[i - 1][0] == 'gen' and i else ('golden' if i else 'nothing')),
+            out.violate('code-file-%s-after-%s' % (what, 'generated' if seq[i - 1][0] in ('gen', 'text') and i else ('golden' if i else 'nothing')),
                         '%s: code file of %s (%s) is %s compared with its solo run; first diagnostics multi=%s solo=%s'
                         % (tag, s, role, what, dg[s][:3], d0[:3]))
         elif dg[s] != d0:
